@@ -26,6 +26,8 @@ TECHNIQUE += '; every receiver (generator method that decodes lines) is subject 
 LEVEL_TEXT += ' Added clauses: see technique (C19.R3 all receivers, R6, R7). The 16-bit checksum and the time-derived ids bound what any reader can detect; collisions are runtime quantities and not decided.'
 TECHNIQUE += '; run-length layer interpreted exhaustively over {~, a, 1} <= 4/6 and runs next to markers (decode(encode(s)) == s)'
 LEVEL_TEXT += ' Added clause: the run-length layer is lossless also on text that contains its own marker characters.'
+TECHNIQUE += '; Packet.__init__ over falsy recipients and payloads'
+LEVEL_TEXT += ' Added clause: a falsy payload is a payload.'
 LEVEL_NOTE = 'Trusted: str.replace and re.sub scan left to right; a text-mode readline() returns a line without trailing newline only at end of file.'
 EXPLANATION = ('Static analysis of /repo sources, TatSu not imported. Stage sequences are extracted from the def-use chain of the '
                'value threaded through pack/unpack; regex literals of the codecs are compiled to NFAs by the checker; receive() is '
